@@ -526,6 +526,11 @@ func (g *vgen) equiv(n ast.Node, stack []ast.Node) {
 		}
 		g.outlineTail(x)
 		g.outlineStmts(x)
+		// a trace line at function entry
+		if x.Body != nil && len(x.Body.List) > 0 {
+			first := x.Body.List[0]
+			g.add("trace-entry", first, "println(\"trace: "+x.Name.Name+"\")\n\t"+g.text(first))
+		}
 	}
 }
 
